@@ -141,20 +141,47 @@ def run(chk, repo):
     chk.ob("R25.4", sym2, "reads the current station address first", ok, g,
            "APRD 0x10")
     old = rd_[0][1]["a"].id if ok else "ret"
-    r0 = [r for r in walk_no_nested(g) if isinstance(r, ast.Return) and any(
-        t and match(f"{old} != 0", e) is not None for e, t in path_facts(r))]
-    ok = len(r0) == 1 and unparse(r0[0].value) == old
-    chk.ob("R25.4", sym2, "an existing non-zero address is returned "
-           "unchanged", ok, g, f"if {old} != 0: return {old}")
+
+    def zero_side(node):
+        """True: only reached when the address read is 0; False: only when
+        it is non-zero; None: both"""
+        facts = path_facts(node)
+        if has_fact(facts, f"{old} == 0", True) or has_fact(
+                facts, f"{old} != 0", False) or has_fact(
+                facts, f"not {old}", True) or has_fact(facts, old, False):
+            return True
+        if has_fact(facts, f"{old} != 0", True) or has_fact(
+                facts, f"{old} == 0", False) or has_fact(facts, old, True):
+            return False
+        return None
     fr = find("$b = await self.find_free_address()", g, mode="stmt")
-    ok = len(fr) == 1 and isinstance(fr[0][1]["b"], ast.Name)
+    okf = len(fr) == 1 and isinstance(fr[0][1]["b"], ast.Name)
+    new_ = fr[0][1]["b"].id if okf else None
+    rets = [r for r in walk_no_nested(g) if isinstance(r, ast.Return)]
+    bad = []
+    for r in rets:
+        side = zero_side(r)
+        v = unparse(r.value) if r.value is not None else "None"
+        if side is False and v != old:
+            bad.append(f"non-zero side returns {v}")
+        if side is None and not (v == old and new_ == old):
+            bad.append(f"common return of {v}")
+    chk.ob("R25.4", sym2, "an existing non-zero address is returned "
+           "unchanged", bool(rets) and not bad and okf and zero_side(
+               fr[0][0]) is True, g,
+           "; ".join(bad) or f"a new address is drawn only when {old} == 0")
+    ok = okf
     if ok:
-        new_ = fr[0][1]["b"].id
         wr = find(f"self.roundtrip(ECCmd.APWR, position, 16, 'H', {new_})", g)
-        last = [r for r in walk_no_nested(g) if isinstance(r, ast.Return)
-                and r.lineno > fr[0][0].lineno]
-        ok = len(wr) == 1 and wr[0][0].lineno > fr[0][0].lineno and bool(
-            last) and all(unparse(r.value) == new_ for r in last)
+        ok = len(wr) == 1 and wr[0][0].lineno > fr[0][0].lineno and \
+            zero_side(stmt_of(wr[0][0])) is True
+        for r in rets:
+            side = zero_side(r)
+            v = unparse(r.value) if r.value is not None else "None"
+            if side is True and v != new_:
+                ok = False
+            if side is None and v != new_:
+                ok = False
     chk.ob("R25.4", sym2, "otherwise writes exactly the free address it "
            "returns", ok, g, "APWR 0x10 <- find_free_address()")
     writers = []
